@@ -206,7 +206,30 @@ func findReaderStrings(w *World, e *Engine) (*readerStrings, string) {
 		return nil, "reader.read_atom no longer resolves"
 	}
 	rs := &readerStrings{fn: fn}
-	for _, rt := range (&evalModel{}).returns(fn) {
+	// the returns of read_atom, and of the functions of the package it hands a token kind on to
+	// (`return read_keyword(text)`): their returns are returns of read_atom
+	var rets [][3]interface{}
+	seenF := map[*ssa.Function]bool{}
+	var collect func(f *ssa.Function, depth int)
+	collect = func(f *ssa.Function, depth int) {
+		if seenF[f] || depth > 3 {
+			return
+		}
+		seenF[f] = true
+		for _, rt := range (&evalModel{}).returns(f) {
+			if ex, ok := rt[1].(*ssa.Extract); ok && ex.Index == 0 {
+				if c, ok := ex.Tuple.(*ssa.Call); ok {
+					if g := c.Call.StaticCallee(); g != nil && g.Pkg == fn.Pkg && len(g.Blocks) > 0 && g != fn {
+						collect(g, depth+1)
+						continue
+					}
+				}
+			}
+			rets = append(rets, rt)
+		}
+	}
+	collect(fn, 0)
+	for _, rt := range rets {
 		v := rt[1].(ssa.Value)
 		ev, _ := rt[2].(ssa.Value)
 		if ev != nil && !isNilConst(ev) {
@@ -354,6 +377,8 @@ func checkC06(w *World, r *Report) {
 	printerRules(w, r, "C06.one-escaper")
 	intInverseRule(w, r, "C06.int")
 	scannerConfigRule(w, r, "C06.token-rules")
+	// what the printer writes as two values is read as two: the value an atom reads as depends on its one token
+	leafReaderRule(w, r, "C06.one-token")
 	literalTableRule(w, r, e, "C06.literals")
 	readerLimitRule(w, r, "C06.no-limit")
 	atomSiteRule(w, r, "C06.atom-site")
@@ -549,7 +574,8 @@ func checkC06(w *World, r *Report) {
 	for _, v := range markers {
 		vals[v] = true
 	}
-	r.check(len(markers) == 5 && len(vals) == 1, "C06.brackets", ps.fn, "keyword marker", ps.kwRet.Pos(), fmt.Sprintf("one constant in %d places", len(markers)), fmt.Sprintf("keyword marker constants disagree or were not all found: %v", markers))
+	r.rule("C06.marker", "what makes a string a keyword is one and the same test everywhere: NewKeyword prefixes the marker constant, and Keyword_Q, String_Q, the type? builtin and the printer's keyword branch each decide by strings.HasPrefix with that constant (a predicate that looks for the marker anywhere in the string, or for another constant, disagrees with the others about strings that merely contain the character)")
+	r.check(len(markers) == 5 && len(vals) == 1, "C06.marker", ps.fn, "keyword marker", ps.kwRet.Pos(), fmt.Sprintf("one constant in %d places", len(markers)), fmt.Sprintf("keyword marker constants disagree or were not all found: %v", markers))
 	marker := markers["NewKeyword"]
 	// printer strips len(marker) and prefixes the char the reader strips
 	okKw := false
@@ -873,7 +899,9 @@ func checkC16(w *World, r *Report) {
 	peekNextRule(w, r, "C16.peek-next")
 	// what a text is classified as depends on the text alone: the reader keeps nothing between (or across) reads
 	r.rule("C16.read-stateless", "reading assigns no package-level variable (no buffer, cache or counter carried from one read to the next or shared by two reads in progress): whether a text is complete, incomplete or malformed is decided from that text alone (shared with C17.read-stateless)")
-	noGlobalWritesRule(w, r, "C16.read-stateless", "the reader", append([]*ssa.Function{w.Fn("", "READ"), w.Fn("", "READWithPreamble")}, w.pkgFuncs("reader")...))
+	// (the read-string builtin, through which load-file reads, is an entry point of the reader too: a text that was
+	// rejected once is rejected again)
+	noGlobalWritesRule(w, r, "C16.read-stateless", "the reader", append(append([]*ssa.Function{w.Fn("", "READ"), w.Fn("", "READWithPreamble")}, w.pkgFuncs("reader")...), w.withPkgHelpersOf(w.builtin("read-string"))...))
 	// who may say "incomplete": the message shape the REPL takes for "keep reading" is built only where the
 	// token stream really ends inside an open bracket (the template in read_list) and for the raw-string
 	// delimiter (read_atom); any other place that builds such a message classifies input by another criterion
@@ -2024,7 +2052,9 @@ func leafReaderRule(w *World, r *Report, rule string) {
 					switch sc := c.Call.StaticCallee(); {
 					case sc == next:
 						nexts = append(nexts, c)
-					case isReaderFn(sc) && sc != leaf:
+					case isReaderFn(sc) && sc != leaf, sc == leaf:
+						// (a single-token reader that calls itself - through a helper, for a second token that
+						// "belongs" to the first - takes two tokens as well)
 						okCalls = false
 						r.bad(rule, f, "parsing function called by a single-token reader", c.Pos(), w.fnName(leaf)+" has taken its token and calls "+sc.Name()+", which takes another: the token after the form is swallowed (a closing bracket, say), so complete text is reported incomplete and unbalanced text is accepted")
 					}
